@@ -200,6 +200,8 @@ CHECKS = {
         "parts": [
             {"name": "rapid", "pkg": "proxy", "run": "^TestVF_C02_Rapid$",
              "checks": {"quick": 3000, "thorough": 30000}, "shards": {"quick": 4, "thorough": 16}},
+            {"name": "wiring", "pkg": "proxy", "run": "^TestVF_C02_Wiring$",
+             "checks": {"quick": 60, "thorough": 600}, "shards": {"quick": 2, "thorough": 4}},
         ],
     },
     "C03": {
@@ -289,6 +291,7 @@ CHECKS = {
         "parts": [
             {"name": "rapid", "pkg": "transport/grpcutil", "run": "^TestVF_C11_Rapid$",
              "checks": {"quick": 700, "thorough": 8000}, "shards": {"quick": 4, "thorough": 16}},
+            {"name": "notifyorder", "pkg": "transport/grpcutil", "run": "^TestVF_C11_NotifyOrder$", "rapid": False},
         ],
     },
     "C19": {
